@@ -482,3 +482,36 @@ Qed.
 
 Lemma Forall_nth_Z (P : Z -> Prop) l k : Forall P l -> (k < length l)%nat -> P (nth k l 0).
 Proof. intros Hl Hk. apply Forall_nth; assumption. Qed.
+
+(* loop_fold_stop composed with the code after the loop, when that code does not look at the counter *)
+Lemma loop_fold_stop_bind {St R A V : Type} (mk mk' : A -> nat -> St) (step : Z -> A -> A) (stop : Z -> bool)
+      (l : list Z) (cond : St -> bool) (body : St -> res (flow St R)) (after : loop_exit St R -> res V)
+      (v : A -> V) fuel acc0 s0 :
+  s0 = mk acc0 0%nat -> (length l <= fuel)%nat ->
+  (forall acc j, (j < length l)%nat -> cond (mk acc j) = true) ->
+  (forall acc, cond (mk acc (length l)) = false) ->
+  (forall acc j, (j < length l)%nat ->
+     body (mk acc j) = if stop (nth j l 0) then Done (Break (mk' (step (nth j l 0) acc) j))
+                       else Done (Continue (mk (step (nth j l 0) acc) (S j)))) ->
+  (forall acc j, after (Exited (mk acc j)) = Done (v acc)) ->
+  (forall acc j, after (Exited (mk' acc j)) = Done (v acc)) ->
+  bind (while_loop fuel cond body s0) after = Done (v (fold_stop step stop l acc0)).
+Proof.
+  intros -> Hf Hct Hcf Hb Ha Ha'.
+  destruct (loop_fold_stop mk mk' step stop l cond body Hct Hcf Hb fuel 0%nat acc0 ltac:(lia) ltac:(lia))
+    as (j' & _ & [He|He]); rewrite He; cbn [bind skipn]; [apply Ha | apply Ha'].
+Qed.
+
+(* the shape of the hand-written counting functions: h d summed over the digits up to the first stop *)
+Fixpoint sum_stop (h : Z -> Z) (stop : Z -> bool) (l : list Z) : Z :=
+  match l with
+  | [] => 0
+  | d :: r => if stop d then h d else h d + sum_stop h stop r
+  end.
+
+Lemma fold_stop_sum h stop l acc :
+  fold_stop (fun d acc => acc + h d) stop l acc = acc + sum_stop h stop l.
+Proof.
+  revert acc. induction l as [|d r IH]; intros acc; cbn [fold_stop sum_stop]; [lia|].
+  destruct (stop d); [reflexivity|]. rewrite IH. lia.
+Qed.
